@@ -73,16 +73,61 @@ def specSplit (data pat : Bits) (s e : Nat) (al : Bool) (count : Option Nat) : L
   | none => all
   | some n => all.take n
 
-/-- The matches `replace` acts on (`count = 0` means "all", as in `_replace`). -/
-def specReplaceSel (data old : Bits) (s e : Nat) (al : Bool) (count : Nat) : List Nat :=
+/-- The matches `replace` acts on: the first `count` of the non-overlapping matches (all of them for `None`). -/
+def specReplaceSel (data old : Bits) (s e : Nat) (al : Bool) (count : Option Nat) : List Nat :=
   let all := selectNonOverlap old.length 0 (occ data old s e al)
-  if count = 0 then all else all.take count
+  match count with
+  | none => all
+  | some n => all.take n
 
 /-- `data` with `new` in place of the `m` bits at each selected position (positions increasing,
     non-overlapping), starting to copy at `cur`. -/
 def spliceFrom (data new : Bits) (m : Nat) : Nat → List Nat → Bits
   | cur, [] => data.drop cur
   | cur, p :: ps => slice data cur p ++ new ++ spliceFrom data new m (p + m) ps
+
+/-- `replace`: number of replacements and the new content. -/
+def specReplace (data old new : Bits) (s e : Nat) (al : Bool) (count : Option Nat) : Nat × Bits :=
+  let sel := specReplaceSel data old s e al count
+  (sel.length, spliceFrom data new old.length 0 sel)
+
+/-- A `start` / `end` argument as a position: `None` is the default, negative values count from the end. -/
+def normIdx (len : Nat) (dflt : Int) : Option Int → Int
+  | none => dflt
+  | some x => if x < 0 then x + len else x
+
+/-- The window `[s, e)` named by `start`, `end`; `none` when the range is invalid
+    (`start < 0`, `end > len` or `end < start` after normalisation). -/
+def specWindow (len : Nat) (start stop : Option Int) : Option (Nat × Nat) :=
+  let s := normIdx len 0 start
+  let e := normIdx len len stop
+  if 0 ≤ s ∧ s ≤ e ∧ e ≤ len then some (s.toNat, e.toNat) else none
+
+/-- The error clause of the property: ValueError for an empty pattern (where the property says so) or an
+    invalid range, otherwise the value computed on the window. -/
+def specGuard {α} (emptyIsError : Bool) (len : Nat) (pat : Bits) (start stop : Option Int) (k : Nat → Nat → α) :
+    Except Err α :=
+  if emptyIsError && pat.isEmpty then .error .value else
+  match specWindow len start stop with
+  | none => .error .value
+  | some (s, e) => .ok (k s e)
+
+/-- `bytealigned` argument defaulted from `options.bytealigned`. -/
+def specAligned (ba : Option Bool) (optBA : Bool) : Bool := ba.getD optBA
+
+/-- `count=None` or a non-negative count. -/
+def countNat : Option Int → Option Nat
+  | none => none
+  | some c => some c.toNat
+
+/-! ### regions of the known findings (same names in harness/props/C07.py REGIONS) -/
+
+/-- `findall` with an empty pattern: the code has no check (it yields every position / every byte position). -/
+def findall_empty_pattern (pat : Bits) : Bool := pat.isEmpty
+
+/-- `replace(..., count=0)` returns 0 before the pattern and the range are validated. -/
+def replace_count0_unvalidated (len : Nat) (old : Bits) (start stop : Option Int) (count : Option Int) : Bool :=
+  count == some 0 && (old.isEmpty || (specWindow len start stop).isNone)
 
 /-! ## bitarray / bytes primitives as executable list programs -/
 
